@@ -314,6 +314,18 @@ impl GlobalEnvironment {
     }
 }
 
+/// Verification hooks (see vm/verif.rs)
+#[cfg(marwood_verif)]
+impl GlobalEnvironment {
+    pub(crate) fn verif_bindings(&self) -> Vec<(usize, usize)> {
+        self.bindings.iter().map(|it| (*it.0, *it.1)).collect()
+    }
+
+    pub(crate) fn verif_slots(&self) -> &[VCell] {
+        &self.slots
+    }
+}
+
 impl Default for GlobalEnvironment {
     fn default() -> Self {
         Self::new()
